@@ -306,7 +306,8 @@ def run(R, replay=None):
               "ElementTree's escapes, the XML formatter's sanitiser and csv.writer vs the codec models; (2) directories of files whose "
               "findings quote such strings (hard-coded password literals), with hostile file names and a skipped file, reported through "
               "main() in every format x aggregation x context lines: each report parsed with a standard parser and compared record by "
-              "record with the JSON report; grouping, skipped-file listing, SARIF regions, HTML escaping; non-trivial = non-empty text")
+              "record with the JSON report; grouping, skipped-file listing, SARIF regions, HTML escaping; non-trivial = non-empty text"
+              "; synthetic findings without a CWE / test id through every formatter; line ends inside quoted literals")
     unit(R, rng, R.tier)
     system(R, rng, R.tier)
     baseline_html(R, rng, R.tier)
